@@ -4,7 +4,7 @@ TIE = "corr:pe"
 TIE_THEOREM = "Relic.Props.C01 (models Relic.Model.PE vs lib/authenticode)"
 UNPROVED = ['Relic.Props.C01.vsix_sign_then_verify_full_orig (code before the repair of FV1): false, witness vsix_uri_roundtrip_gap; for the repaired code vsix_sign_then_verify holds at full strength (sign succeeds => verify accepts; refusals characterised by vsix_sign_refuses_iff), with the XML-DSig layer, encoding/xml and digests as parameters (VsixSound)', 'Relic.Props.C01.macho_sign_then_verify_full (end to end over scan/sign/locate; proved at patch-set level: macho_sign_then_verify_partial)', 'appx_sign_then_verify_full (model verifier accepts what the model signer wrote: needs Read∘WriteDirectory round trip; executed per op)', 'Relic.Props.C01.deb_sign_then_verify_full (text layer: checkSig accepts the canonical text of the message it was built from; proved at the archive layer: deb_sign_then_verify, plus a decided end-to-end instance)']
 IMPL_PARALLEL = 16
-install(globals(), "C01", ["pe", "e2e", "cab", "ps", "jar", "apk", "xsig", "apkv", "deb", "appx", "pgp", "macho", "magic", "vsix", "ident", "xap", "msisign", "dmg", "cosign", "appxv", "xar"])
+install(globals(), "C01", ["pe", "e2e", "cab", "ps", "jar", "apk", "xsig", "apkv", "deb", "appx", "pgp", "macho", "magic", "vsix", "ident", "xap", "msisign", "dmg", "cosign", "appxv", "xar", "csvfy"])
 
 # file-type detection and signer dispatch (checklib/models/magic.py): tables re-extracted from the Go source on every run
 import magic as _magic
@@ -18,3 +18,6 @@ import appxv as _appxv
 UNPROVED = list(UNPROVED) + _appxv.UNPROVED_C01
 
 UNPROVED += ['Relic.Props.C01.xar_sign_then_verify_full (false on the unchanged tree: members without <archived-checksum> (xar_verify_needs_archived_checksum, FXAR1) and members in front of the old signature area (C03.xar_front_member_lost, FXAR3); proved for regular documents: xar_sign_then_verify)']
+
+import csvfy as _csvfy  # Apple code signatures, decision level: Relic.Props.C01.csblob_sign_then_verify (lean/Relic/Props/C01_CsVerify.lean)
+UNPROVED += _csvfy.UNPROVED_C01
